@@ -26,3 +26,10 @@ def run(repo, res, tier):
     _hk.rule_reindex(repo, res)
     _hk.rule_v5(repo, res)
     _hk.rule_v6(repo, res)
+    # pvl.load and pvl.new.load build their parsers with different container classes in one process: a class choice
+    # remembered on the parser/decoder/encoder *class* by one of them is what the other one gets (E-SHARED, MEMO), and
+    # the class of a block is chosen from this instance's grpcls/objcls on every path (H1 aggregation_cls)
+    from .. import effects as _eff
+    _eff.rule_shared_class_state(repo, res)
+    _eff.rule_memo(repo, res)
+    _hk.rule_aggcls(repo, res)
